@@ -40,8 +40,12 @@ Grease(n) == E("grease", <<>>, n)
 SigAlgs == E("sigalgs", <<>>, 2)
 Groups == E("groups", <<>>, 2)
 
-\* templates: [id, sid, ncs, hasext, exts, name]; name = the first host_name, <<>> if none
-T(id, sid, ncs, hasext, exts, nm) == [id |-> id, sid |-> sid, ncs |-> ncs, hasext |-> hasext, exts |-> exts, name |-> nm]
+\* templates: [id, sid, ncs, hasext, exts, name, wf]; name = the first host_name, <<>> if none;
+\* wf = FALSE: the message breaks the grammar although every length is consistent (not claimed well-formed)
+T(id, sid, ncs, hasext, exts, nm) == [id |-> id, sid |-> sid, ncs |-> ncs, hasext |-> hasext, exts |-> exts, name |-> nm, wf |-> TRUE]
+TBad(id, sid, ncs, hasext, exts, nm) == [T(id, sid, ncs, hasext, exts, nm) EXCEPT !.wf = FALSE]
+\* opaque bytes of an entry of unknown name type that LOOK like a host_name entry ("evil")
+Hidden == <<0, 0, 4, 101, 118, 105, 108>>
 TplQuick == {
   T("noext",        0,  1, FALSE, <<>>, <<>>),                                                \* TLS 1.0 style: no extension block at all
   T("emptyext",     32, 2, TRUE,  <<>>, <<>>),                                                \* extension block of length 0
@@ -50,7 +54,10 @@ TplQuick == {
   T("tls13",        32, 3, TRUE,  <<Grease(0), SN(<<Host(NameA)>>), Groups, SigAlgs, ALPN, SV, KS(32), Grease(1)>>, NameA),
   T("sni-last",     32, 2, TRUE,  <<SV, Groups, SigAlgs, KS(32), ALPN, Pad(7), SN(<<Host(NameB)>>)>>, NameB),
   T("no-sni",       32, 2, TRUE,  <<Groups, SigAlgs, ALPN, SV, KS(32)>>, <<>>),
-  T("other-first",  0,  2, TRUE,  <<SN(<<Other(NameX), Host(NameB)>>), ALPN>>, NameB)            \* first host_name is the second entry
+  T("other-first",  0,  2, TRUE,  <<SN(<<Other(NameX), Host(NameB)>>), ALPN>>, NameB),           \* first host_name is the second entry
+  T("other-hidden", 0,  2, TRUE,  <<SN(<<Other(Hidden), Host(NameA)>>)>>, NameA),                \* a host_name entry is NOT hidden in opaque bytes
+  T("two-others",   32, 2, TRUE,  <<ALPN, SN(<<Other(NameX), Other(NameB), Host(NameA)>>)>>, NameA),
+  TBad("other-empty", 0, 2, TRUE, <<SN(<<Other(<<>>), Host(NameB)>>)>>, NameB)                   \* an empty entry (01 00 00): names are <1..2^16-1>
 }
 TplThorough == TplQuick \cup {
   T("pq",           32, 3, TRUE,  <<SN(<<Host(NameA)>>), Groups, SigAlgs, SV, KS(1216), ALPN, Ticket>>, NameA),   \* post-quantum key share
@@ -164,7 +171,7 @@ CorrsOf(m) ==
     \cup (IF m.id \in {"sni-only", "tls13"} THEN { C("hdr", "", rh[1], "", rh[2]) : rh \in HdrCombos(n) } ELSE {})
 
 \* a corruption that does not change the bytes (len-1 of a zero length, max of ...) is dropped
-MkCase(m, c) == [tpl |-> m.id, corr |-> c, bytes |-> Ser(c, m), wf |-> (c.kind = "none"), wfname |-> m.name]
+MkCase(m, c) == [tpl |-> m.id, corr |-> c, bytes |-> Ser(c, m), wf |-> (c.kind = "none" /\ m.wf), wfname |-> m.name]
 MCCases == UNION { { MkCase(m, c) : c \in { c \in CorrsOf(m) : c.kind = "none" \/ Ser(c, m) # Full(NoCorr, m) } } : m \in Templates }
 
 \* client configurations for capturing real hellos (the features of the grammar a client can switch)
